@@ -17,6 +17,11 @@
 (*              instructions as the spec decodes them; no panic            *)
 (*   comps      Glyph.Components: the glyphIndex list                      *)
 (*   fix        Glyph.FixComponents: ids rewritten by the map, rest equal  *)
+(*   put        the caller stores an earlier Fix result in the glyph set   *)
+(*   observe    after every call of a call history: the glyph set, the     *)
+(*              Components() lists of all its glyphs and all earlier Fix   *)
+(*              results are re-read and must be what they were             *)
+(*   recheck    the same for the one glyph FixComponents was applied to    *)
 (*                                                                         *)
 (* A failed check does not stop the run: TLC prints <<"BAD", line, clause>>*)
 (* and goes on, so one run judges every event.  Events on which the        *)
@@ -31,12 +36,13 @@ VARIABLES l,     \* next line
           enc,   \* current encoded tables [fmt, loca, glyf], fmt = -1: none
           gs,    \* current in-memory glyph set as logged (sequence of glyph values)
           have,  \* gs is defined
-          rt     \* the next decode is the second half of a round trip
-vars == <<l, enc, gs, have, rt>>
+          rt,    \* the next decode is the second half of a round trip
+          res    \* the results of the Fix calls of this case that the harness keeps (expected values)
+vars == <<l, enc, gs, have, rt, res>>
 
 E == Trace[l]
 NoEnc == [fmt |-> -1, loca |-> <<>>, glyf |-> <<>>]
-Init == l = 1 /\ enc = NoEnc /\ gs = <<>> /\ have = FALSE /\ rt = FALSE
+Init == l = 1 /\ enc = NoEnc /\ gs = <<>> /\ have = FALSE /\ rt = FALSE /\ res = <<>>
         /\ TLCSet(1, 0) /\ TLCSet(2, 0) /\ TLCSet(3, 0)
 Consume == l' = l + 1 /\ TLCSet(1, l)
 Is(ev) == l <= Len(Trace) /\ E.ev = ev
@@ -63,12 +69,12 @@ GlyphClass(g) ==
 Reset ==
   /\ Is("reset")
   /\ enc' = [fmt |-> E.fmt, loca |-> E.loca, glyf |-> E.glyf]
-  /\ gs' = <<>> /\ have' = FALSE /\ rt' = FALSE
+  /\ gs' = <<>> /\ have' = FALSE /\ rt' = FALSE /\ res' = <<>>
   /\ Consume
 
 ResetLib ==
   /\ Is("resetlib")
-  /\ enc' = NoEnc /\ gs' = E.glyphs /\ have' = TRUE /\ rt' = FALSE
+  /\ enc' = NoEnc /\ gs' = E.glyphs /\ have' = TRUE /\ rt' = FALSE /\ res' = <<>>
   /\ Consume
 
 (* The checks are state-level operators compared with TRUE inside the actions: TLC then evaluates   *)
@@ -91,7 +97,7 @@ Decode ==
   /\ DecodeOK = TRUE
   /\ gs' = IF E.ok THEN E.glyphs ELSE <<>>
   /\ have' = E.ok /\ rt' = FALSE
-  /\ UNCHANGED enc /\ Consume
+  /\ UNCHANGED <<enc, res>> /\ Consume
 
 RecordOK(rec, g) == LET d == DecodeGlyph(rec) IN d.ok /\ Represents(g, d)
 EncodeOK ==
@@ -116,7 +122,7 @@ Encode ==
   /\ EncodeOK = TRUE
   /\ enc' = IF E.panic THEN NoEnc ELSE [fmt |-> E.fmt, loca |-> E.loca, glyf |-> E.glyf]
   /\ rt' = have
-  /\ UNCHANGED <<gs, have>> /\ Consume
+  /\ UNCHANGED <<gs, have, res>> /\ Consume
 
 \* SimpleGlyph.Decode on glyph E.i (0-based)
 SimpleOK ==
@@ -134,7 +140,7 @@ SimpleOK ==
 Simple ==
   /\ Is("simple")
   /\ SimpleOK = TRUE
-  /\ UNCHANGED <<enc, gs, have, rt>> /\ Consume
+  /\ UNCHANGED <<enc, gs, have, rt, res>> /\ Consume
 
 CompsOK ==
   IF ~have \/ E.i + 1 > Len(gs) THEN NoDemand
@@ -147,7 +153,7 @@ CompsOK ==
 Comps ==
   /\ Is("comps")
   /\ CompsOK = TRUE
-  /\ UNCHANGED <<enc, gs, have, rt>> /\ Consume
+  /\ UNCHANGED <<enc, gs, have, rt, res>> /\ Consume
 
 FixOK ==
   IF ~have \/ E.i + 1 > Len(gs) THEN NoDemand
@@ -157,12 +163,47 @@ FixOK ==
          ELSE /\ Check(~E.panic, "fixcomponents:panic")
               /\ ~E.panic => Check(E.glyph = FixValue(g, E.map), "fixcomponents:result")
 
+\* E.keep: the harness keeps the result (call histories); its expected value is remembered
+FixDemand == have /\ E.i + 1 <= Len(gs)
+             /\ ~(gs[E.i + 1].k = "c" /\ \E j \in 1..Len(gs[E.i + 1].comps) : MapId(E.map, gs[E.i + 1].comps[j].gid) < 0)
 Fix ==
   /\ Is("fix")
   /\ FixOK = TRUE
+  /\ res' = IF ~E.keep THEN res
+            ELSE Append(res, IF FixDemand THEN FixValue(gs[E.i + 1], E.map) ELSE E.glyph)
   /\ UNCHANGED <<enc, gs, have, rt>> /\ Consume
 
-Next == Reset \/ ResetLib \/ Decode \/ Encode \/ Simple \/ Comps \/ Fix
+\* the caller stores result E.k (0-based) as glyph E.i (0-based): an input step, nothing to check
+Put ==
+  /\ Is("put")
+  /\ gs' = IF have /\ E.i + 1 <= Len(gs) /\ E.k + 1 <= Len(res) THEN [gs EXCEPT ![E.i + 1] = res[E.k + 1]] ELSE gs
+  /\ UNCHANGED <<enc, have, rt, res>> /\ Consume
+
+\* History: FixComponents (and every other call) leaves the glyph set it was applied to and all
+\* earlier results unchanged -- "component lists are reported and rewritten exactly, component
+\* records preserved bit for bit" holds for the glyphs the caller still holds, not only for the
+\* value returned last.
+ObserveOK ==
+  IF ~have THEN NoDemand
+  ELSE /\ Check(E.glyphs = gs, "history:glyph-set-changed-by-a-call")
+       /\ Check(E.results = res, "history:earlier-fixcomponents-result-changed")
+       /\ Check(Len(E.comps) = Len(gs) /\ \A i \in 1..Len(gs) : E.comps[i] = ComponentIds(gs[i]),
+                "history:components-list-changed")
+Observe ==
+  /\ Is("observe")
+  /\ ObserveOK = TRUE
+  /\ UNCHANGED <<enc, gs, have, rt, res>> /\ Consume
+
+RecheckOK ==
+  IF ~have \/ E.i + 1 > Len(gs) THEN NoDemand
+  ELSE /\ Check(E.glyph = gs[E.i + 1], "history:glyph-changed-by-fixcomponents")
+       /\ Check(E.ids = ComponentIds(gs[E.i + 1]), "history:components-list-changed")
+Recheck ==
+  /\ Is("recheck")
+  /\ RecheckOK = TRUE
+  /\ UNCHANGED <<enc, gs, have, rt, res>> /\ Consume
+
+Next == Reset \/ ResetLib \/ Decode \/ Encode \/ Simple \/ Comps \/ Fix \/ Put \/ Observe \/ Recheck
 Spec == Init /\ [][Next]_vars
 
 Accepted == /\ PrintT(<<"STATS", TLCGet(1), TLCGet(2), TLCGet(3)>>)
